@@ -249,6 +249,11 @@ def dump_json_with_numpy(
     def np_encoder(obj):
         if isinstance(obj, np.generic):
             return obj.item()
+        # Returning ``None`` here would silently encode any other object as
+        # ``null``
+        raise TypeError(
+            f"Object of type {type(obj).__name__} is not JSON serializable"
+        )
 
     if filename is None:
         return json.dumps(x, default=np_encoder)
